@@ -50,6 +50,14 @@ func (c *Code) CodeName() string {
 }
 
 func (c *Code) addName(name string) uint16 {
+	// One entry per distinct name: the operand that selects the name is 16
+	// bits wide, and an entry per mention (m.x written 65537 times) silently
+	// wrapped around to the first name
+	for i, existing := range c.names {
+		if existing == name {
+			return uint16(i)
+		}
+	}
 	c.names = append(c.names, name)
 	return uint16(len(c.names) - 1)
 }
